@@ -73,9 +73,27 @@ def build():
                 m.simulator.schedule_event_rel(0.5, m, "back", 5,
                                                who=m.stations[0])
 
+    class Late(EventListener):
+        """subscribes to the clock notifications in the middle of a run and
+        draws from the shared stream on each of them"""
+
+        def __init__(self, model):
+            self.m = model
+
+        def notify(self, e):
+            m = self.m
+            u = m.stream.next_float()
+            m.log.append(("late-tc", float(e.timestamp).hex(), u.hex()))
+            if u < 0.25:
+                # (absolute: during the notification the clock still shows
+                # the previous event, or the bound of a pause)
+                m.simulator.schedule_event_abs(e.timestamp + 0.5, m, "extra",
+                                               5, who="tc")
+
     class Model(DSOLModel):
-        def __init__(self, sim, nmax=None):
+        def __init__(self, sim, nmax=None, late=False):
             super().__init__(sim)
+            self.late = late
             self.stop_at = None
             self.nmax = nmax
             self.nh = 0
@@ -134,6 +152,11 @@ def build():
 
         def extra(self, who):
             self.hook("extra:%s" % who)
+            if self.late and who == "init1":
+                # a monitor created by the model while the run is under way
+                self.monitor = Late(self)
+                self.simulator.add_listener(S.TIME_CHANGED_EVENT,
+                                            self.monitor)
             self.tal.register(float(len(self.log) % 7)
                               + self.dflt.next_float()
                               + self.zero.next_float())
@@ -158,9 +181,10 @@ def build():
             self.stream.append([self.NAMES.get(e.event_type, "?"),
                                 None if ts is None else float(ts).hex()])
 
-        def subscribe(self, sim):
+        def subscribe(self, sim, tc=True):
             for et in self.NAMES:
-                sim.add_listener(et, self)
+                if tc or et is not S.TIME_CHANGED_EVENT:
+                    sim.add_listener(et, self)
     return Model, Rec
 
 
@@ -180,11 +204,14 @@ def digests(m, sim, rec):
     repl = [x for x in rec.stream
             if x[0] in ("START_REPLICATION", "WARMUP", "END_REPLICATION")]
     reduced = [m.log, stats, repl]
+    # plus the clock notifications: the same however the run was paused by
+    # bounds or stop/start (step() notifies for every event, as documented)
+    clock = reduced + [[x for x in rec.stream if x[0] == "TC"]]
     h = lambda o: hashlib.sha256(json.dumps(o).encode()).hexdigest()[:16]  # noqa
-    return h(full), h(reduced), len(m.log)
+    return h(full), h(reduced), len(m.log), h(clock)
 
 
-def run_pattern(pattern, s=None, nmax=None):
+def run_pattern(pattern, s=None, nmax=None, late=False):
     """one replication under a pause pattern; returns (full, reduced, n)"""
     import time as _t
     from pydsol.core.simulator import DEVSSimulatorFloat
@@ -192,10 +219,11 @@ def run_pattern(pattern, s=None, nmax=None):
     from pydsol.core.utils import DSOLError
     Model, Rec = build()
     sim = DEVSSimulatorFloat("s")
-    m = Model(sim, nmax)
+    m = Model(sim, nmax, late)
     rec = Rec()
     sim.initialize(m, SingleReplication("r", 0.0, WARM, END))
-    rec.subscribe(sim)
+    # in the 'late' family nobody listens to the clock when the run starts
+    rec.subscribe(sim, tc=not late)
 
     def wait():
         if s is not None:
@@ -270,10 +298,10 @@ def child_main(kind):
     coopsched.install()
     out = {}
 
-    def one(p):
-        r = coopsched.run_one(lambda s: run_pattern(p, s))
+    def one(p, late=False):
+        r = coopsched.run_one(lambda s: run_pattern(p, s, late=late))
         if r.failure:
-            return ["scheduler-%s" % (r.failure[0],), "failure", 0]
+            return ["scheduler-%s" % (r.failure[0],), "failure", 0, "failure"]
         return list(r.value)
     import io
     import contextlib
@@ -285,6 +313,13 @@ def child_main(kind):
         for p in pats:
             out["/".join(str(x) for x in p)] = one(p)
         out["second-replication"] = one(("run",))
+        # the same with a clock listener that the model subscribes mid-run
+        out["late:run"] = one(("run",), True)
+        # (no stepping here: step() is documented to notify the clock
+        # listeners for every event, run only when the time changes)
+        for p in [("upto", 3.0), ("upto", 1.0), ("upto", 1.5)] + \
+                [("stop-at", k) for k in range(1, 24)]:
+            out["late:" + "/".join(str(x) for x in p)] = one(p, True)
     json.dump(out, sys.stdout)
     return keep
 
@@ -381,13 +416,22 @@ def run(ctx):
                     {"mode": "process", "hashseed": cfg[0], "prior": cfg[1],
                      "pattern": pat})
             # different pause patterns: reduced digest must agree
-            if d[1] != res["run"][1]:
+            ref = res["late:run" if pat.startswith("late:") else "run"]
+            if d[1] == ref[1] and "step" not in pat and d[3] != ref[3]:
                 ctx.violation(
-                    "C07:pause-pattern:%s" % pat.split("/")[0],
+                    "C07:pause-pattern-clock-notifications:%s"
+                    % pat.split("/")[0].replace(":", "-"),
+                    "PYTHONHASHSEED=%s, prior '%s': pausing with %s changes "
+                    "the time-changed notifications (%s vs uninterrupted %s)"
+                    % (cfg[0], cfg[1], pat, d[3], ref[3]),
+                    {"mode": "process", "hashseed": cfg[0], "prior": cfg[1],
+                     "pattern": pat})
+            if d[1] != ref[1]:
+                ctx.violation(
+                    "C07:pause-pattern:%s" % pat.split("/")[0].replace(":", "-"),
                     "PYTHONHASHSEED=%s, prior '%s': pausing with %s changes "
                     "events / statistics / replication notifications "
-                    "(%s vs uninterrupted %s)" % (cfg[0], cfg[1], pat, d[1],
-                                                  res["run"][1]),
+                    "(%s vs uninterrupted %s)" % (cfg[0], cfg[1], pat, d[1], ref[1]),
                     {"mode": "process", "hashseed": cfg[0], "prior": cfg[1],
                      "pattern": pat})
     ctx.part("interpreter processes", configurations=len(configs),
@@ -462,8 +506,11 @@ def replay(data):
                            capture_output=True, cwd=common.ROOT)
         ra, rb = json.loads(a.stdout), json.loads(b.stdout)
         bad = [(p, ra[p], rb[p]) for p in ra if ra[p][0] != rb[p][0]]
-        bad += [(p, ra[p][1], ra["run"][1]) for p in ra
-                if ra[p][1] != ra["run"][1]]
+        base = lambda p: "late:run" if p.startswith("late:") else "run"  # noqa
+        bad += [(p, ra[p][1], ra[base(p)][1]) for p in ra
+                if ra[p][1] != ra[base(p)][1]]
+        bad += [(p, "clock", ra[p][3], ra[base(p)][3]) for p in ra
+                if "step" not in p and ra[p][3] != ra[base(p)][3]]
         return bad[:3] or None
     return None
 
